@@ -111,7 +111,7 @@ impl Prop for C12 {
         }
     }
     fn rule_text(&self) -> &'static str {
-        "seeded walk over the rule space: 1-2 rules of one family drawn from the cross product of all enum-valued fields (strategies incl. unregistered custom ones, relation to another resource incl. one never seen, metric types) with boundary numerics inside the sane range and out-of-range values (negative, NaN, zero duration, empty/blank names), loaded through load-all / load-for-resource / append, followed by 3-12 entries (batch {0,1,2,10^6}, no/short/long argument lists, attachments, inbound/outbound, empty resource name), time steps and exits; every call under catch_unwind and the run watchdog; rules rejected by the validity check must not be reported; a health probe of all five managers and of an unrelated resource must succeed afterwards. Non-trivial = a rule accepted by the validity check was loaded and >= 1 entry was built against it; distinct = distinct trace hash."
+        "seeded walk over the rule space: 1-2 rules of one family drawn from the cross product of all enum-valued fields (strategies incl. unregistered custom ones, relation to another resource incl. one never seen, metric types) with boundary numerics inside the sane range and out-of-range values (negative, NaN, zero duration, empty/blank names), loaded through load-all / load-for-resource / append, followed by 3-12 entries (one run in ten: a valid hotspot rule with a parameter cache of 1-3 values and 6-16 single-argument entries over four values) (batch {0,1,2,10^6}, no/short/long argument lists, attachments, inbound/outbound, empty resource name), time steps and exits; every call under catch_unwind and the run watchdog; rules rejected by the validity check must not be reported; a health probe of all five managers and of an unrelated resource must succeed afterwards. Non-trivial = a rule accepted by the validity check was loaded and >= 1 entry was built against it; distinct = distinct trace hash."
     }
     fn components(&self) -> Value {
         json!({"real": ["sentinel-core: all five rule families (validity checks, managers, builders, slots, checkers, calculators), EntryBuilder, slot chain"],
@@ -165,9 +165,12 @@ impl Prop for C12 {
                     let args = match rng.below(5) {
                         0 => None,
                         1 => Some(vec![]),
-                        2 => Some(vec!["a".to_string()]),
-                        3 => Some(vec!["a".to_string(), "b".to_string()]),
-                        _ => Some((0..rng.range(3, 6)).map(|i| format!("v{}", i % 3)).collect()),
+                        2 => Some(vec![rng.pick(&["a", "b", "c", "d"]).to_string()]),
+                        3 => Some(vec![rng.pick(&["a", "b", "c", "d"]).to_string(), rng.pick(&["a", "b"]).to_string()]),
+                        _ => {
+                            let off = rng.below(3);
+                            Some((0..rng.range(3, 6)).map(|i| format!("v{}", (i + off) % 3)).collect())
+                        }
                     };
                     let att = match rng.below(4) {
                         0 => Some(vec![("k1".to_string(), "a".to_string())]),
@@ -179,6 +182,34 @@ impl Prop for C12 {
                 1 => ops.push(Op::Exit { k: rng.below(4) as usize, err: rng.chance(1, 2) }),
                 _ => ops.push(Op::Adv { ms: *rng.pick(&[0u64, 1, 499, 500, 1000, 10_000, 600_000]) }),
             }
+        }
+        if rng.chance(1, 10) {
+            // small-cache walk: a valid hotspot rule whose parameter cache holds fewer values than the
+            // traffic carries, and a longer run of single-argument entries over four values
+            let r = res[0].clone();
+            let rule = AnySpec::Hot(HotspotSpec {
+                id: format!("s_{:x}", rng.below(0xffff)),
+                res: r.clone(),
+                metric: rng.below(2) as u8,
+                ctrl: rng.below(2) as u8,
+                index: *rng.pick(&[0i64, 0, -1]),
+                key: String::new(),
+                threshold: *rng.pick(&[1u64, 2, 1_000_000]),
+                max_queue_ms: *rng.pick(&[0u64, 500]),
+                burst: *rng.pick(&[0u64, 1]),
+                duration_s: *rng.pick(&[1u64, 2, 600]),
+                capacity: *rng.pick(&[1usize, 2, 2, 3]),
+                specific: vec![],
+            });
+            let mut ops = vec![];
+            for _ in 0..rng.range(6, 16) {
+                match rng.weighted(&[10, 2, 1]) {
+                    0 => ops.push(Op::Enter { res: r.clone(), n: 1, inb: false, args: Some(vec![rng.pick(&["a", "b", "c", "d"]).to_string()]), att: None }),
+                    1 => ops.push(Op::Exit { k: rng.below(3) as usize, err: false }),
+                    _ => ops.push(Op::Adv { ms: *rng.pick(&[1u64, 499, 1000]) }),
+                }
+            }
+            return serde_json::to_value(Scn { epoch_ns, rules: vec![rule], extra: None, entry_point, ops }).unwrap();
         }
         serde_json::to_value(Scn { epoch_ns, rules, extra, entry_point, ops }).unwrap()
     }
